@@ -132,7 +132,7 @@ package main
 //@   ghostset ghostBootstrapCleared bool = false
 //@   ghostset ghostIsAdmin bool = false
 //@   ghostset ghostIsAutomationAdmin bool = false
-//@   ensures err == nil ==> ai.AuthType & requiredAuthType != 0                                             #C06.kind @C06
+//@   ensures err == nil ==> ai.AuthType & requiredAuthType != 0                                             #C06.kind @C06,C11
 //@   ensures err == nil ==> viaCookie(state, ai) || viaTLS(state, r, ai) || viaPassword(state, ai)           #C06.established @C06,C01,C04,C07
 //@   ensures err == nil && r.Method != "GET" && getOriginOrReferrer(r) != "" && r.Host != "" ==> urlHostOf(getOriginOrReferrer(r)) == r.Host  #C06.csrf @C06
 
@@ -221,6 +221,7 @@ package main
 //@   atcall (*RuntimeState).loadSignersFromPemData overrides C09.load-once (st *RuntimeState, signerPem []byte, ed25519Pem []byte) :: true #C09.startup-first-load @C09
 //@ func (*RuntimeState).unsealCA
 //@   atcall (*RuntimeState).loadSignersFromPemData requires (st *RuntimeState, signerPem []byte, ed25519Pem []byte) :: same(signerPem, pgpPlaintext(state.SSHCARawFileContent, password))  #C09.right-passphrase @C09
+//@   atcall (*RuntimeState).loadSignersFromPemData requires (st *RuntimeState, signerPem []byte, ed25519Pem []byte) :: len(state.Ed25519CAFileContent) > 0 ==> same(ed25519Pem, pgpPlaintext(state.Ed25519CAFileContent, password))  #C09.right-passphrase-ed25519 @C09
 //@   ensures ret0 == nil ==> state.Signer != nil                                   #C09.unsealed @C09
 // after unsealing the published key list contains the keys that sign (the list feeds /public/ and the JWKS)
 //@ func (*RuntimeState).signerPublicKeyToKeymasterKeys
@@ -234,6 +235,11 @@ package main
 //@   atcall (*RuntimeState).unsealCA requires (st *RuntimeState, password []byte, clientName string) :: r.TLS != nil && len(r.TLS.VerifiedChains) >= 1  #C09.inject-needs-client-cert @C09
 //@ func (*RuntimeState).readyzHandler
 //@   atcall (net/http.ResponseWriter).WriteHeader requires (w2 http.ResponseWriter, code int) :: (code == 200) == (state.Signer != nil) && (code == 200 || code == 503)  #C09.readyz @C09
+// ... and that status is the one the client gets: nothing is written to the body before it (a body write commits 200)
+//@   handler readyz
+//@   atcall (net/http.ResponseWriter).WriteHeader sets ghostStatusSent bool (w2 http.ResponseWriter, code int) :: true
+//@   atcall fmt.Fprintf requires (w2 io.Writer, format string, a []any) :: ghostStatusSent   #C09.readyz-status-before-body @C09
+//@ ghost var ghostStatusSent bool
 //@ func (*RuntimeState).sendFailureToClientIfLocked
 //@   ensures ret0 == (state.Signer == nil)                                          #C09.locked-test @C09
 //@ func (*RuntimeState).isUnsealed
